@@ -164,6 +164,12 @@ func (g *Gen) define(prefix string, so *Sort, term string) string {
 	g.nfresh++
 	name := fmt.Sprintf("|%s!%d|", strings.Trim(prefix, "|"), g.nfresh)
 	g.declared[name] = true
+	if strings.HasPrefix(so.Name, "(Array") {
+		// heaps are real constants (not macros) so that they can appear in quantifier patterns
+		g.emit(fmt.Sprintf("(declare-const %s %s)", name, so.Name))
+		g.emit(fmt.Sprintf("(assert (= %s %s))", name, term))
+		return name
+	}
 	g.emit(fmt.Sprintf("(define-fun %s () %s %s)", name, so.Name, term))
 	return name
 }
